@@ -66,10 +66,13 @@ async fn smoke(net: Net, seed: u64) {
     let me: SocketAddr = v4(10, 0, 0, 1, 7000);
     let dht = start_node(&net, &NodeCfg { addr: me, id: None, read_only: false, announce_port: None, nodes: vec![addrs[0], addrs[1]], routers: vec![] });
     let w = wait_bootstrapped(&net, &dht, me, 1);
-    let _ = w.await;
+    if tokio::time::timeout(std::time::Duration::from_secs(1200), w).await.is_err() {
+        net.log(json!({"ev":"End"}));
+        return;
+    }
     let ih = rand_id(&mut rng);
     let s = search(&net, &dht, me, 1, ih, true);
-    let got = s.await.unwrap_or_default();
+    let got = tokio::time::timeout(std::time::Duration::from_secs(900), s).await.ok().and_then(|r| r.ok()).unwrap_or_default();
     net.inject(v4(10, 9, 9, 9, 1), me, benc::q_ping(b"xy", &rand_id(&mut rng)), 5);
     sleep_ms(2000).await;
     api_state(&net, &dht, me).await;
@@ -121,7 +124,10 @@ async fn server(net: Net, seed: u64, v6net: bool, read_only: bool, nq: u64, fat:
     let me: SocketAddr = if v6net { v6(9000, 7000) } else { v4(10, 0, 0, 1, 7000) };
     let dht = start_node(&net, &NodeCfg { addr: me, id: Some(my_id), read_only, announce_port: None,
                                           nodes: addrs[..4].to_vec(), routers: vec![] });
-    let _ = wait_bootstrapped(&net, &dht, me, 1).await;
+    if tokio::time::timeout(std::time::Duration::from_secs(1200), wait_bootstrapped(&net, &dht, me, 1)).await.is_err() {
+        net.log(json!({"ev":"End"}));
+        return;
+    }
     // requesters: several IPs, two ports on the first
     let reqs: Vec<SocketAddr> = if v6net {
         vec![v6(5001, 4000), v6(5001, 4001), v6(5002, 4000), v6(5003, 4000)]
@@ -261,7 +267,10 @@ async fn flood(net: Net, seed: u64, corpus: String) {
     net.add_scripted(&addrs, Box::new(oracle.clone()));
     let me: SocketAddr = v4(10, 0, 0, 1, 7000);
     let dht = start_node(&net, &NodeCfg { addr: me, id: Some(my_id), read_only: false, announce_port: None, nodes: addrs[..3].to_vec(), routers: vec![] });
-    let _ = wait_bootstrapped(&net, &dht, me, 1).await;
+    if tokio::time::timeout(std::time::Duration::from_secs(1200), wait_bootstrapped(&net, &dht, me, 1)).await.is_err() {
+        net.log(json!({"ev":"End"}));
+        return;
+    }
     let data: Vec<Vec<u8>> = std::fs::read_to_string(&corpus).unwrap_or_default().lines()
         .map(|l| (0..l.len() / 2).filter_map(|i| u8::from_str_radix(&l[2 * i..2 * i + 2], 16).ok()).collect()).collect();
     let ih = rand_id(&mut rng);
@@ -397,15 +406,17 @@ async fn lookup(net: Net, seed: u64, kind: String, n: usize) {
     let other = rand_id(&mut rng);
     let s1 = search(&net, &dht, me, 1, target, true);
     let s2 = if kind != "coop" || seed % 2 == 0 { Some(search(&net, &dht, me, 2, other, kind == "hostile")) } else { None };
-    let _ = s1.await;
-    if let Some(s) = s2 { let _ = s.await; }
+    // a search that never ends must not hang the scenario: it is reported by the End-of-run check instead
+    let lim = std::time::Duration::from_secs(900);
+    let _ = tokio::time::timeout(lim, s1).await;
+    if let Some(s) = s2 { let _ = tokio::time::timeout(lim, s).await; }
     sleep_ms(rng.gen_range(100..3000)).await;
     let s3 = search(&net, &dht, me, 3, target, coop);
-    let _ = s3.await;
+    let _ = tokio::time::timeout(lim, s3).await;
     if kind == "timing" && seed % 6 == 5 {
         net.with(|nn| nn.send_fail_all = true);
         let s4 = search(&net, &dht, me, 4, other, true);
-        let _ = s4.await;
+        let _ = tokio::time::timeout(lim, s4).await;
         net.with(|nn| nn.send_fail_all = false);
     }
     sleep_ms(6000).await;
@@ -453,7 +464,10 @@ async fn maintenance(net: Net, seed: u64, npeers: usize, minutes: u64, mask: u64
     }
     let dht = start_node(&net, &NodeCfg { addr: me, id: Some(my_id), read_only: seed % 3 == 0, announce_port: None, nodes: given, routers: vec![] });
     net.log(json!({"ev":"Plan","node":addr_json(&me),"peers":plan}));
-    let _ = wait_bootstrapped(&net, &dht, me, 1).await;
+    if tokio::time::timeout(std::time::Duration::from_secs(1200), wait_bootstrapped(&net, &dht, me, 1)).await.is_err() {
+        net.log(json!({"ev":"End"}));
+        return;
+    }
     let with_searches = seed % 4 == 1;
     let mut sid = 10;
     let steps = minutes * 12;
